@@ -39,7 +39,10 @@ structure Verdict where
   dist : List (String × Nat) := []
 
 def Verdict.addCorr (v : Verdict) (k : String) (b : Bool) : Verdict := { v with corr := v.corr ++ [(k, b)] }
-def Verdict.addSpec (v : Verdict) (k : String) (b : Bool) : Verdict := { v with spec := v.spec ++ [(k, b)] }
+/-- several verdicts under one key are conjoined -/
+def Verdict.addSpec (v : Verdict) (k : String) (b : Bool) : Verdict :=
+  if v.spec.any (·.1 == k) then { v with spec := v.spec.map fun e => if e.1 == k then (e.1, e.2 && b) else e }
+  else { v with spec := v.spec ++ [(k, b)] }
 def Verdict.addAssume (v : Verdict) (k : String) (b : Bool) : Verdict := { v with assume := v.assume ++ [(k, b)] }
 def Verdict.addDetail (v : Verdict) (k : String) (j : Json) : Verdict := { v with detail := v.detail ++ [(k, j)] }
 
@@ -430,7 +433,14 @@ def opPerturb (j : Json) : R Verdict := do
     let textSame := match textOf "files", textOf "files_b" with
       | some a, some b => a == b
       | _, _ => false
-    v := v.addSpec "C13" (Spec.C13.holdsPair d1 d2 t1 t2 r1 r2 && (!textSame || t1 == t2))
+    -- … and it is what a parser that never held anything else makes of that text
+    let soloOk := match (impl.getObjVal? "solo").toOption with
+      | none => true
+      | some .null => true
+      | some sj => match list fileResult sj with
+        | .ok [fr] => fr == t1
+        | _ => false
+    v := v.addSpec "C13" (Spec.C13.holdsPair d1 d2 t1 t2 r1 r2 && (!textSame || t1 == t2) && soloOk)
     let same := t1 == t2 && Spec.C13.facts d1 t1 == Spec.C13.facts d2 t2
     v := { v with nontrivial := !(Spec.C13.importKeys t1).isEmpty,
                   dist := bump (bump v.dist how) (if same then "facts unchanged" else "facts changed (control)") }
@@ -737,7 +747,39 @@ def parseExtras (prop : String) (c : ParseCtx) (v : Verdict) : R Verdict := do
         | .interface _ => "interface" | .parcelable _ => "parcelable" | .enum _ => "enum") |>.getD "none"
       v := { v with nontrivial := true, dist := bump (bump v.dist s!"position={min pos 4}") kind }
     | none => pure ()
+  if prop == "C20" then
+    -- the expectations named in a syntax diagnostic are the ones the regenerated tables give at that point:
+    -- the messages of the implementation are the messages of the model (which formats `expected` as the code does)
+    let msgsOk := c.model.all fun (id, r) =>
+      match r, c.stage1.find? (fun fr => fr.id == id) with
+      | .ok m, some fr => m.diags.map (·.message) == fr.diags.map (·.message)
+      | _, _ => true
+    v := v.addSpec "C20" msgsOk
+    if !msgsOk then
+      v := v.addDetail "C20_messages" (Json.mkObj [
+        ("model", Json.arr ((c.model.flatMap fun (_, r) => match r with | .ok m => m.diags.map (·.message) | _ => []).map Json.str).toArray),
+        ("impl", Json.arr ((c.stage1.flatMap fun fr => fr.diags.map (·.message)).map Json.str).toArray)])
+    v := { v with nontrivial := c.stage1.any (fun fr => !fr.diags.isEmpty) }
   if prop == "C18" || prop == "all" then
+    -- the model of javadoc.rs is the proved specification (`parseJavadoc_eq_spec`, `parseJavadoc_structured`,
+    -- `getJavadoc_doc`): a documentation field that differs from the model's is a violation with this text as
+    -- the failing input, not only a broken correspondence
+    let docsOfTree (a : AidlFile) : List (Option String) :=
+      match a.item with
+      | .interface i => i.doc :: i.elements.flatMap fun
+          | .method m => m.doc :: m.args.map (·.doc)
+          | .const k => [k.doc]
+      | .parcelable p => p.doc :: p.elements.map fun | .field f => f.doc | .const k => k.doc
+      | .enum e => e.doc :: e.elements.map (·.doc)
+    let modelDocsOk := c.model.all fun (id, r) =>
+      match r, c.stage1.find? (fun fr => fr.id == id) with
+      | .ok m, some fr =>
+        match m.ast, fr.ast with
+        | some a, some b => docsOfTree a == docsOfTree b
+        | _, _ => true
+      | _, _ => true
+    if !modelDocsOk then
+      v := (v.addSpec "C18" false).addDetail "C18_model_docs" (Json.str "a documentation field differs from the specification's")
     match (j.getObjVal? "docs").toOption with
     | some dj =>
       let expected ← list optStr (← fld dj "expected")
@@ -775,7 +817,23 @@ def handle (prop : String) (line : String) : Json :=
       | "serde" => opSerde j
       | "parse" => opParse prop j (parseExtras prop)
       | _ => throw s!"unknown op {op}" : R Verdict) with
-    | .ok v => v.toJson case
+    | .ok v =>
+      -- the same contents reached through a history on one parser gave other answers than the fresh parser:
+      -- whatever the property, it speaks about what the library returns in any use
+      let historyBad := match (j.getObjVal? "impl").toOption.bind (fun i => (i.getObjVal? "history_same").toOption) with
+        | some (.bool false) => true
+        | _ => false
+      -- a file parsed alone (fresh parser, fresh thread) has another syntax-stage result than inside the project
+      let soloBad := match (j.getObjVal? "impl").toOption.bind (fun i => (i.getObjVal? "solo_same").toOption) with
+        | some (.bool false) => true
+        | _ => false
+      let v := if soloBad && prop != "all" then
+          (v.addSpec prop false).addDetail "solo" (Json.str "the syntax-stage result of a file inside the project differs from that of the file alone")
+        else v
+      let v := if historyBad && prop != "all" then
+          (v.addSpec prop false).addDetail "history" ((j.getObjVal? "impl").toOption.bind (fun i => (i.getObjVal? "history_ops").toOption) |>.getD Json.null)
+        else v
+      v.toJson case
     | .error e => Json.mkObj [("case", case), ("error", e)]
 
 partial def loop (prop : String) (hin : IO.FS.Stream) (hout : IO.FS.Stream) : IO Unit := do
